@@ -33,7 +33,7 @@ theorem consistent_setNode {s : St} (hc : Consistent s) {L : Layer} (hup : s.dis
       RealsLike cm.reals (localExp (s.disk.setUpper (n :: pp) X) m' c))
     (H3 : m'.loaded = true → ∀ c,
       (c ∈ m'.kids → localExp (s.disk.setUpper (n :: pp) X) m' c ≠ []) ∧
-      (headStat (s.disk.setUpper (n :: pp) X) (localExp (s.disk.setUpper (n :: pp) X) m' c) ≠ none → c ∈ m'.kids))
+      (needsNode (localExp (s.disk.setUpper (n :: pp) X) m' c) = true → c ∈ m'.kids))
     (H4 : m'.whiteout = headWhiteout m'.reals)
     (H5 : localExp (s.disk.setUpper (n :: pp) X) pm n ≠ [])
     (log' : List Call) :
@@ -112,7 +112,7 @@ theorem consistent_setNode {s : St} (hc : Consistent s) {L : Layer} (hup : s.dis
   · -- kidsLoaded
     intro p m0 hm0 hlo n'
     show (n' ∈ m0.kids → localExp (s.disk.setUpper (n :: pp) X) m0 n' ≠ []) ∧
-      (headStat (s.disk.setUpper (n :: pp) X) (localExp (s.disk.setUpper (n :: pp) X) m0 n') ≠ none → n' ∈ m0.kids)
+      (needsNode (localExp (s.disk.setUpper (n :: pp) X) m0 n') = true → n' ∈ m0.kids)
     have hm0' : (s.mem.set (n :: pp) (some m')) p = some m0 := hm0
     rw [hmem] at hm0'
     by_cases hq2 : p = n :: pp
@@ -129,8 +129,7 @@ theorem consistent_setNode {s : St} (hc : Consistent s) {L : Layer} (hup : s.dis
         rw [hpm] at hpm2; cases hpm2
         exact ⟨fun _ => H5, fun _ => hn2⟩
       · rw [localExp_agree s.disk _ m0 n' (agree_setUpper hc _ X hu hm0' n' hq2 hq1)]
-        have := hl.kidsLoaded p m0 hm0' hlo n'
-        exact ⟨this.1, fun h => this.2 ((headStat_ne_none_iff s.disk _ _).1 h)⟩
+        exact hl.kidsLoaded p m0 hm0' hlo n'
   · -- kidsMem
     intro p m0 n' hm0 hn'
     have hm0' : (s.mem.set (n :: pp) (some m')) p = some m0 := hm0
